@@ -67,15 +67,15 @@ def _huge(out, mode, jobs, vname="prod"):
 @check("C05")
 def c05(out):
     out.rule = ("CTR histories (init / key / tweak / counter / encrypt with arbitrary cuts and placements) generated from (seed, case index); "
-                "structured cases enumerate every total length 0..3 batches+17 x 6 cut patterns x 5 counter kinds, the rest are random; each history is run on every "
+                "structured cases enumerate every total length 0..3 batches+17 x 6 cut patterns x 6 counter kinds (default, wrap, carry chain through k bytes, random, short, low word at its top-bit boundary), the rest are random; each history is run on every "
                 "back end (pinned through the cap hook, pinning confirmed from the handle) and every judged output byte is compared with an independent "
                 "reference CTR (model block cipher + big-endian counter). A case is non-trivial if it has >2 operations; distinct = distinct history hashes.")
-    variants = [("prod", n(out, 4200, 240000)), ("asan", n(out, 900, 30000)), ("prod+W32+UNAL0", n(out, 900, 30000))]
+    variants = [("prod", n(out, 4200, 240000)), ("asan", n(out, 900, 30000)), ("prod+W32+UNAL0", n(out, 900, 30000)), ("prod+W32", n(out, 1800, 30000)), ("prod+NEUTRAL", n(out, 900, 9000))]
     if out.tier == "thorough":
-        variants += [("clang", 60000), ("prod+W32", 30000), ("prod+UNAL0", 30000), ("asan+UNAL0", 9000), ("msan", 9000), ("prod+O0", 9000), ("prod+NEUTRAL", 9000)]
+        variants += [("clang", 60000), ("prod+UNAL0", 30000), ("asan+UNAL0", 9000), ("msan", 9000), ("prod+O0", 9000), ("clang+W32+NATIVE", 9000), ("prod+Os+W32", 9000)]
     for vname, cases in variants:
         exe = build_driver("drv_ctr", ["drv_ctr.c"] + HIST, vname)
-        nstruct = min(cases // 2, 3 * (3 * 128 + 18) * 30)
+        nstruct = min(cases // 2, 3 * (3 * 128 + 18) * 36)
         run_sharded(out, exe, ["--prop", "C05", "--mode", "model", "--structured", str(nstruct)], vname, cases)
         if vname in ("prod", "clang", "prod+W32+UNAL0"):
             # long-lived objects: 70 000 calls each with hundreds of rekeys and a few calls of 64 KiB .. 1 MiB
@@ -120,7 +120,8 @@ def c01(out):
                 "walking-one keys over every tweakey bit, special keys (all-ones, TK1/TK2/TK3-only), then uniformly random key/block pairs; library set_key + ecb_encrypt/decrypt "
                 "compared with an independent cell/table model of the specification (both directions directly). distinct = distinct (variant,direction,key,block) hashes; all are non-trivial.")
     v = [("prod", n(out, 12 * 11000, 12 * 400000)), ("asan", n(out, 12 * 9000, 12 * 60000)), ("prod+W32", n(out, 12 * 9000, 12 * 100000)),
-         ("prod+NEUTRAL", n(out, 12 * 9000, 12 * 100000)), ("prod+W32+NEUTRAL", n(out, 12 * 9000, 12 * 100000))]
+         ("prod+NEUTRAL", n(out, 12 * 9000, 12 * 100000)), ("prod+W32+NEUTRAL", n(out, 12 * 9000, 12 * 100000)),
+         ("prod+Os", n(out, 12 * 4000, 12 * 50000)), ("prod+NATIVE", n(out, 12 * 4000, 12 * 50000)), ("clang+Os+NATIVE", n(out, 12 * 4000, 12 * 50000))]
     if out.tier == "thorough":
         v += [("clang", 12 * 100000), ("msan", 12 * 20000), ("prod+O0", 12 * 30000), ("prod+UNAL0", 12 * 30000), ("prod+W32+NEUTRAL", 12 * 30000), ("clang+W32", 12 * 30000)]
     _blk(out, "C01", "c01", v)
@@ -134,7 +135,7 @@ def c02(out):
                 "walking-one tweaks (64), single-nibble tweaks (256), every nibble value in every cell (256), special keys exercising the k0' rotation, then random (key,tweak,block) triples; "
                 "compared with an independent model of MANTIS-r (forward cipher for encrypt schedules, the model's own inverse for decrypt schedules). distinct = distinct input hashes.")
     v = [("prod", n(out, 32 * 3000, 32 * 150000)), ("asan", n(out, 32 * 1200, 32 * 20000)), ("prod+W32", n(out, 32 * 1500, 32 * 40000)), ("prod+NEUTRAL", n(out, 32 * 1500, 32 * 40000)),
-         ("prod+W32+NEUTRAL", n(out, 32 * 1500, 32 * 40000))]
+         ("prod+W32+NEUTRAL", n(out, 32 * 1500, 32 * 40000)), ("prod+Os", n(out, 32 * 800, 32 * 10000)), ("prod+NATIVE", n(out, 32 * 800, 32 * 10000)), ("clang+Os+NATIVE", n(out, 32 * 800, 32 * 10000))]
     if out.tier == "thorough":
         v += [("clang", 32 * 40000), ("msan", 32 * 8000), ("prod+O0", 32 * 10000), ("prod+W32+NEUTRAL", 32 * 10000)]
     _blk(out, "C02", "c02", v)
@@ -339,7 +340,7 @@ def _digest_compare(out, prop, base_label, what):
 
 def _xcfg_variants(out):
     if out.tier == "quick":
-        return ["prod", "prod+W32", "prod+UNAL0", "prod+NEUTRAL", "prod+W32+UNAL0", "prod+W32+NEUTRAL", "prod+NOSIMD", "prod+NOAVX2", "clang", "prod+O0", "clang+W32+UNAL0+NOSIMD", "clang+O1+NEUTRAL"]
+        return ["prod", "prod+W32", "prod+UNAL0", "prod+NEUTRAL", "prod+W32+UNAL0", "prod+W32+NEUTRAL", "prod+NOSIMD", "prod+NOAVX2", "clang", "prod+O0", "clang+W32+UNAL0+NOSIMD", "clang+O1+NEUTRAL", "prod+Os", "clang+Os+W32", "prod+NATIVE", "clang+NATIVE+O2", "prod+Og+NATIVE+W32"]
     vs = []
     for cc in ("prod", "clang"):
         for o in ("O0", "O1", "O2", "O3"):
@@ -347,6 +348,15 @@ def _xcfg_variants(out):
                 for u in ("", "+UNAL0"):
                     for simd in ("", "+NOAVX2", "+NOSIMD", "+NEUTRAL"):
                         vs.append(cc + "+" + o + w + u + simd)
+        for o in ("Os", "Og"):
+            for w in ("", "+W32"):
+                for simd in ("", "+NOSIMD", "+NEUTRAL"):
+                    vs.append(cc + "+" + o + w + simd)
+        # user-style machine flags applied to every file (-march=native): arms conditional on __SSSE3__/__AVX2__ etc. in the core files
+        for o in ("O0", "O2", "O3", "Os"):
+            for w in ("", "+W32"):
+                for u in ("", "+UNAL0"):
+                    vs.append(cc + "+" + o + w + u + "+NATIVE")
     return ["prod"] + vs
 
 
@@ -354,7 +364,7 @@ def _xcfg_variants(out):
 def c12(out):
     import concurrent.futures as cf
     variants = _xcfg_variants(out)
-    out.rule = ("the working tree is built in %d configurations (word size x unaligned access x {SIMD all / no AVX2 / none / byte-order-neutral scalar} x gcc/clang x -O levels; quick = covering subset of 12) "
+    out.rule = ("the working tree is built in %d configurations (word size x unaligned access x {SIMD all / no AVX2 / none / byte-order-neutral scalar} x gcc/clang x -O0..-O3, -Os, -Og, with and without -march=native on every file; quick = covering subset of 17) "
                 "and each build runs the same seeded workload: single-block SKINNY (all variants, in-between key sizes, both directions), MANTIS (rounds, modes, entry points incl. double swap), tweak histories, "
                 "CTR histories (carries, splits, mid-stream rekey, invalid calls) and parallel histories on every back end the build contains; inside each build results are compared with the reference models and across "
                 "back ends; per-chunk digests (32 cases) of all outputs and return values are compared with the shipped configuration. distinct = distinct workload cases by output digest (each executed in every build)." % len(variants))
